@@ -224,6 +224,12 @@ def bindStep (l toSec : Nat) (toOff : BitVec 64) (acc : Acc) (f : Fixup) : Acc :
       | some buf' => { acc with secs := setBuf acc.secs toSec buf', resolved := acc.resolved + 1 }
       | none => { acc with kept := acc.kept ++ [{ f with lr := some l }], err := .invalidDisplacement }
 
+/-- `encode_offset32/64` accepts the displacement for this format (the validation loop of the repaired `bind_label`) -/
+def encodableDisp (f : OffsetFormat) (d : BitVec 64) : Bool :=
+  if f.valueSize = 8 then (encodeOffset64 f d).isSome
+  else if f.valueSize = 1 ∨ f.valueSize = 2 ∨ f.valueSize = 4 then (encodeOffset32 f d).isSome
+  else false
+
 /-- `CodeHolder::bind_label(label, to_section_id, to_offset)` -/
 def bindLabel (s : State) (l toSec : Nat) (toOff : BitVec 64) : State × Err :=
   match s.labels[l]? with
@@ -233,6 +239,10 @@ def bindLabel (s : State) (l toSec : Nat) (toOff : BitVec 64) : State × Err :=
     match le with
     | .bound _ _ => (s, .labelAlreadyBound)
     | .unbound fx =>
+      -- (as repaired upstream) validate first: a pending same-section fixup whose displacement cannot be encoded makes
+      -- bind_label fail *before* anything is modified - the label stays unbound
+      if fx.any (fun f => f.lr.isNone && f.sec == toSec &&
+          !encodableDisp f.fmt (toOff - BitVec.ofNat 64 f.offset + f.rel)) then (s, .invalidDisplacement) else
       let acc := fx.foldl (bindStep l toSec toOff) { secs := s.secs, relocs := s.relocs, kept := [], resolved := 0, err := .ok }
       ({ s with labels := s.labels.set l (.bound toSec toOff), secs := acc.secs, relocs := acc.relocs,
                 fixups := acc.kept ++ s.fixups, count := s.count - acc.resolved }, acc.err)
@@ -423,17 +433,23 @@ def relocFinish (acc : RelocAcc) (re : Reloc) (value : BitVec 64) : Except Err R
   | some buf' => .ok { acc with secs := setBuf acc.secs re.srcSec buf' }
   | none => .error .invalidRelocEntry
 
+/-- `if (!at_entry->has_assigned_slot()) at_entry->_slot = address_table_entry_size++;` : (entries, next free slot, slot of entry `ei`) -/
+def assignSlot (acc : RelocAcc) (ei : Nat) : List AddrEntry × Nat × Nat :=
+  match acc.addrTab[ei]? with
+  | some { addr := a, slot := none } => (acc.addrTab.set ei { addr := a, slot := some acc.nSlots }, acc.nSlots + 1, acc.nSlots)
+  | some { addr := _, slot := some k } => (acc.addrTab, acc.nSlots, k)
+  | none => (acc.addrTab, acc.nSlots, 0)
+
 /-- `kX64AddressEntry` when a rel32 cannot reach the target: assign / reuse the slot, rewrite `[REX] E8|E9` to `FF /2|/4`,
 store the target in the slot; returns the modified buffers and the rel32 that reaches the slot -/
 def relocTable (s : State) (acc : RelocAcc) (re : Reloc) (src : Section) : Except Err (RelocAcc × BitVec 64) :=
   let valueOffset := re.srcOff + re.fmt.valueOffset
   match acc.addrTab.findIdx? (fun e => e.addr == re.payload), s.addrTabSec with
   | some ei, some ats =>
-    let (tab, nSlots, slot) : List AddrEntry × Nat × Nat :=
-      match acc.addrTab[ei]? with
-      | some { addr := a, slot := none } => (acc.addrTab.set ei { addr := a, slot := some acc.nSlots }, acc.nSlots + 1, acc.nSlots)
-      | some { addr := _, slot := some k } => (acc.addrTab, acc.nSlots, k)
-      | none => (acc.addrTab, acc.nSlots, 0)
+    let trip := assignSlot acc ei
+    let tab := trip.1
+    let nSlots := trip.2.1
+    let slot := trip.2.2
     let atIndex := slot * s.arch.regSize
     let addrSrc := src.offset + BitVec.ofNat 64 re.srcOff + BitVec.ofNat 64 re.regionSize
     let addrDst := secOffset acc.secs ats + BitVec.ofNat 64 atIndex
